@@ -81,6 +81,24 @@ def monitor(sc, obs):
         if raises_body or blocked:
             if act.kind != 'X':
                 out.append((f'{a[1]}({av}): the body raises / is blocked, outcome {act.outcome!r}', tag))
+            elif raises_body:
+                # which exception reaches the caller: registries from the innermost layer outwards, in each one every raises contract, then
+                # every reason contract registered for exactly the raised class, in application order
+                cj = f['body'][0][2][0][1]; name = cj['name']; mro = [name] + scn.mro_of(cj)
+                cur, unknown = name, False
+                for layer in range(0, nlayers + 1):
+                    for cid, l in app:
+                        if l == layer and cs[cid][0] == 'raises' and not any(c['name'] in mro for c in cs[cid][2]):
+                            cur = 'RaisesContractError'; break
+                    if cur != name: break
+                    for cid, l in app:
+                        if l == layer and cs[cid][0] == 'reason' and cs[cid][1]['name'] == name:
+                            r = pyeval.verdict(cs[cid][2], vis_sig(layer), args, [])
+                            if r[0] == 'error': unknown = True; break
+                            if r[0] != 'accept': cur = 'ReasonContractError'; break
+                    if unknown or cur != name: break
+                if not unknown and act.exc_class != cur:
+                    out.append((f'{a[1]}({av}): the body raises {name}; the raises / reason contracts applied to it make that {cur} for the caller, observed {act.outcome!r}', tag))
             continue
         evaluated = set(act.validators())
         rej = None
